@@ -1,5 +1,6 @@
 import Bmc.Proofs.EndToEnd.SessionlessC10
 import Bmc.Proofs.C09
+import Bmc.Proofs.C11
 /-! # Session-less connections, HISTORY form, about the session-less `SendCommand` AS REGENERATED on this run
 
 A session-less connection (`V2SessionlessTransport`) is used for many commands one after another — the capability and cipher-suite
@@ -64,5 +65,52 @@ theorem generated_sessionless_history_null (bd : Bytes → Bool) (fuel : Nat) (h
   simp only [slContract] at hp
   rw [List.eq_of_mem_replicate hp]
   exact Bmc.Proofs.C09.sessionless_null e.1
+
+end Bmc.Proofs.EndToEnd
+
+namespace Bmc.Proofs.EndToEnd
+open Bmc Bmc.Wire Bmc.Crypto Bmc.Proto Bmc.GoOrch Bmc.GoLoops Bmc.Gen.Loops Bmc.Lemmas.GenLoops Bmc.Proofs.GenLoops
+
+/-- **C11, session-less history, about the translated code**: whenever a call of the history returns a completion code with a nil
+    error, a reply delivered DURING THAT CALL decoded (RMCP, null-session wrapper, checksum-valid message) to a message for THAT
+    call's command — network function + 1, command number, group-extension body code, OEM enterprise — with that completion code.
+    A reply to an earlier command of the history that arrives late is never a later call's result unless it is a reply to the
+    later call's command as well. -/
+theorem generated_sessionless_history_results (bd : Bytes → Bool) (fuel : Nat) (h : List SlItem)
+    (hok : ∀ e ∈ h, e.1.ent < 4294967296 ∧ e.1.reqFails = false ∧ e.2.2.2.length + 1 ≤ fuel) (K : Conn Decoded) :
+    ∀ ex ∈ h.zip (generatedSlHistory bd fuel K h), ∀ cc, ex.2.2 = .ok (cc, none) →
+      ∃ d msg, Outcome.reply d ∈ ex.1.2.2.2 ∧ slView (slOnReply {} (GoSlice.ofBytes d)) = (.message, some msg) ∧
+        msg.function = ex.1.1.fn + 1 ∧ msg.command = ex.1.1.cmd ∧ msg.body = ex.1.1.body ∧ msg.enterprise = ex.1.1.ent ∧
+        msg.completionCode = cc := by
+  rw [generated_sessionless_history bd fuel h hok K]
+  intro ex hex cc hres
+  rw [List.zip_map_right] at hex
+  obtain ⟨⟨e, e'⟩, hmem, rfl⟩ := List.mem_map.mp hex
+  have he : e = e' := by
+    have := List.of_mem_zip hmem
+    clear hex hres
+    induction h with
+    | nil => simp at hmem
+    | cons a t ih =>
+      simp only [List.zip_cons_cons, List.mem_cons, Prod.mk.injEq] at hmem
+      rcases hmem with ⟨rfl, rfl⟩ | hm
+      · rfl
+      · exact ih (fun x hx => hok x (by simp [hx])) hm (List.of_mem_zip hm)
+  subst he
+  obtain ⟨_, hf, _⟩ := hok e (List.of_mem_zip hmem).1
+  simp only [Prod.map, id, slContract] at hres ⊢
+  obtain ⟨e2, _⟩ := Proofs.C10.sessionless_send_refines e.1 hf e.2.2.2
+  cases hm : (slExpected (slClassify e.1) e.2.2.2).2 with
+  | ok cc' p =>
+    rw [hm] at hres
+    simp only [RF.ok.injEq, Prod.mk.injEq] at hres
+    obtain ⟨rfl, _⟩ := hres
+    rw [← e2] at hm
+    obtain ⟨d, msg, h1, h2, h3, h4, h5, h6, h7, _⟩ := Proofs.C11.sessionless_result_matches_request e.1 hf e.2.2.2 _ _ hm
+    exact ⟨d, msg, h1, h2, h3, h4, h5, h6, h7⟩
+  | transportErr => rw [hm] at hres; simp at hres
+  | serializeErr => rw [hm] at hres; simp at hres
+  | ctxExpired => rw [hm] at hres; simp at hres
+  | crashed => rw [hm] at hres; simp at hres
 
 end Bmc.Proofs.EndToEnd
